@@ -169,6 +169,10 @@ class Obj(Shape):
         for k, s in self.attrs.items():
             if isinstance(s, Alias):
                 o.attrs[k] = s.resolve(o)
+        for k, v in o.attrs.items():
+            if isinstance(v, StructRef) and getattr(v, 'pending_owner', None):
+                v.owner = Alias(v.pending_owner).resolve(o)
+                v.pending_owner = None
         return o
 
     def extend(self, **more):
@@ -318,11 +322,14 @@ class TupleT(Shape):
 class StructOf(Shape):
     """a reference to the named struct of the file's ELFStructs (self.structs.X)"""
 
-    def __init__(self, name):
+    def __init__(self, name, owner=None):
         self.name = name
+        self.owner = owner          # attribute path (from the enclosing object) of the structs object
 
     def make(self, mk, name, idx=None):
-        return StructRef(self.name, None)
+        r = StructRef(self.name, None)
+        r.pending_owner = self.owner
+        return r
 
 
 class GenOf(Shape):
